@@ -96,4 +96,19 @@ theorem uriDecode_eq_spec (src : Bytes) : uriDecode src = decodeSpec src := by
     | none => rfl
     | some r => rfl
 
+/-- a successful decode is never empty (`ret_len <= 0` returns NULL) -/
+theorem uriDecode_ne_nil (src bin : Bytes) (h : uriDecode src = some bin) : bin ≠ [] := by
+  rw [uriDecode_eq_spec] at h
+  unfold decodeSpec at h
+  split at h
+  · cases h
+  · split at h
+    · cases h
+    · simp only at h
+      split at h
+      · cases h
+      · rename_i hne
+        cases h
+        exact hne
+
 end Jwt.Base64
